@@ -621,6 +621,45 @@ def theory_axioms(terms, extra_trig=False):
     return ax
 
 
+# A-table, second part: identities that relate *different* arguments of the uninterpreted circular functions.  They are not
+# instantiated automatically; a spec-level lemma asks for the instances it needs (contracts/sum_lemmas.py::Theory.axiom) and
+# lists them as trusted.  Each is a theorem of real analysis for all real arguments (integer n / winding).
+ATAN2_WINDING = z3.Function("atan2_winding", RealS, RealS, RealS, IntS)     # skolem function of "equal modulo 2 pi"
+
+
+def trig_addition_axioms(x, y):
+    """cos(x+y) = cos x cos y - sin x sin y,  sin(x+y) = sin x cos y + cos x sin y"""
+    c, s = UF1["cos"], UF1["sin"]
+    return [c(x + y) == c(x) * c(y) - s(x) * s(y), s(x + y) == s(x) * c(y) + c(x) * s(y)]
+
+
+def trig_period_axioms(x, n):
+    """cos / sin(x + 2 pi n) = cos / sin(x) for an integer term n"""
+    assert z3.is_int(n)
+    c, s = UF1["cos"], UF1["sin"]
+    return [c(x + 2 * PI * z3.ToReal(n)) == c(x), s(x + 2 * PI * z3.ToReal(n)) == s(x)]
+
+
+def trig_parity_axioms(x):
+    """cos(-x) = cos x, sin(-x) = -sin x"""
+    c, s = UF1["cos"], UF1["sin"]
+    return [c(-x) == c(x), s(-x) == -s(x)]
+
+
+def arctan2_rotation_axiom(a, b, phi):
+    """the angle of the vector (a, b) != 0 rotated by phi is its angle plus phi, modulo 2 pi:
+    arctan2(a sin phi + b cos phi, a cos phi - b sin phi) = arctan2(b, a) + phi + 2 pi n  for an integer n (= atan2_winding(a, b, phi))"""
+    c, s, at = UF1["cos"], UF1["sin"], UF2["arctan2"]
+    return z3.Implies(z3.Or(a != 0, b != 0),
+                      at(a * s(phi) + b * c(phi), a * c(phi) - b * s(phi)) == at(b, a) + phi + 2 * PI * z3.ToReal(ATAN2_WINDING(a, b, phi)))
+
+
+def arctan2_mirror_axioms(a, b):
+    """arctan2(-b, a) = -arctan2(b, a) except on the negative a-axis (b = 0, a < 0), where both are pi"""
+    at = UF2["arctan2"]
+    return [z3.Implies(z3.Or(b != 0, a >= 0), at(-b, a) == -at(b, a)), z3.Implies(z3.And(b == 0, a < 0), z3.And(at(-b, a) == PI, at(b, a) == PI))]
+
+
 # --------------------------------------------------------------------------- symbols
 class Fresh:
     n = 0
